@@ -33,11 +33,15 @@ ASSUMPTIONS = ['the remote driver passes the client descriptor like Acceptor._wo
 _F: Dict[Any, Any] = {}
 
 
-def flags_for(mode: str) -> Any:
-    key = (mode, os.getpid())
+def flags_for(mode: str, unix: bool = False) -> Any:
+    key = (mode, unix, os.getpid())
     if key not in _F:
         from vf.props import c04, c07
         argv = {'local': ['--threadless'], 'remote': ['--threadless', '--local-executor', '0'], 'threaded': ['--threaded']}[mode]
+        if unix:
+            # the proxy listens on a unix socket (and possibly on extra TCP ports next to it): only the flag matters here,
+            # the harness plays the acceptor
+            argv += ['--unix-socket-path', os.path.join(c07.static_dir(), 'listener.sock')]
         argv += ['--enable-web-server', '--enable-static-server', '--static-server-dir', c07.static_dir(), '--enable-reverse-proxy']
         _F[key] = K.make_flags(argv, plugins=[c07.route_plugin(), c04._reverse_plugin()])
     return _F[key]
@@ -71,9 +75,13 @@ def client_for(c: Dict[str, Any]) -> K.Peer:
 
 
 def run_mode(c: Dict[str, Any], mode: str) -> Dict[str, Any]:
-    w = K.World(flags_for(mode), max_iters=60000, settle=6)
+    listener = c.get('listener', 'tcp')
+    w = K.World(flags_for(mode, listener != 'tcp'), max_iters=60000, settle=6)
     client = client_for(c)
-    w.add_client(client)
+    if listener == 'unix':
+        w.add_client(client, addr='')       # accept() on a unix socket reports an empty peer address
+    else:
+        w.add_client(client)                # 'tcp', or 'unix+tcp': a client of one of the TCP ports next to the unix socket
     origins: List[K.Peer] = []
     ending = c['ending']
 
@@ -119,7 +127,7 @@ def run_mode(c: Dict[str, Any], mode: str) -> Dict[str, Any]:
 
 def evaluate(c: Dict[str, Any]) -> Tuple[List[Any], Dict[str, Any]]:
     ts = {m: run_mode(c, m) for m in MODES}
-    feat = {'role': c['role'], 'ending': c['ending']}
+    feat = {'role': c['role'], 'ending': c['ending'], 'listener': c.get('listener', 'tcp')}
     moved = max(len(t['client_rx']) + sum(len(x) for x in t['origins_rx']) for t in ts.values())
     info = {'moved': moved, 'nreq': len(c.get('requests', [])), 'error_path': c['role'] == 'bytes' or c['ending'] in ('connect_refused', 'origin_early_close')}
     out: List[Any] = []
@@ -159,7 +167,8 @@ def replay(case: Dict[str, Any]) -> List[Dict[str, Any]]:
 @st.composite
 def cases(draw: Any) -> Dict[str, Any]:
     role = draw(st.sampled_from(['forward', 'forward', 'tunnel', 'web', 'reverse', 'bytes']))
-    c: Dict[str, Any] = {'role': role, 'schedule': draw(st.lists(st.integers(0, 3), max_size=30))}
+    c: Dict[str, Any] = {'role': role, 'schedule': draw(st.lists(st.integers(0, 3), max_size=30)),
+                         'listener': draw(st.sampled_from(['tcp', 'tcp', 'tcp', 'unix', 'unix+tcp']))}
     sizes = st.sampled_from([0, 1, 20, 300, 5000, 70000, 300000])
     if role == 'bytes':
         ic = draw(c06.input_cases(draw(st.sampled_from(['random', 'mutated', 'mutated']))))
@@ -218,7 +227,7 @@ def run_shard(spec: Dict[str, Any], seed: int, acc: Any) -> None:
             vs, info = evaluate(c)
             if info.get('inconclusive'):
                 acc.dontcare += 1
-            acc.case(c, info['moved'] >= 1024 or info['nreq'] >= 2 or info['error_path'], labels=('role:' + c['role'], 'ending:' + c['ending']))
+            acc.case(c, info['moved'] >= 1024 or info['nreq'] >= 2 or info['error_path'], labels=('role:' + c['role'], 'ending:' + c['ending'], 'listener:' + c.get('listener', 'tcp')))
             acc.count(2)
             acc.size('max_bytes_moved', info['moved'])
             return vs
